@@ -857,10 +857,16 @@ impl Scanner for EntryScanner<'_> {
         self.zonefile.buf.trim_to(self.zonefile.buf.start);
 
         // Skip over symbols that don’t need converting at the beginning.
+        let quoted = matches!(self.zonefile.buf.cat, ItemCat::Quoted);
         while self.zonefile.buf.next_char_symbol()?.is_some() {}
 
         // If we aren’t done yet, we have escaped characters to replace.
         let mut write = self.zonefile.buf.start;
+        if quoted && !matches!(self.zonefile.buf.cat, ItemCat::Quoted) {
+            // The token ended and we are past the closing quote, which is
+            // not part of the string.
+            write -= 1;
+        }
         while let Some(sym) = self.zonefile.buf.next_symbol()? {
             write += sym
                 .into_char()?
